@@ -27,6 +27,16 @@
 (*   encodes whatever the object holds once it is published (Encode).      *)
 (*   CompletionOrder "rewrite-publish" is the code, "publish-rewrite" lets *)
 (*   the writer encode the node's own cursor.                              *)
+(* - handleScan looks at the published healthy list (ReadHosts) and then   *)
+(*   checks the node index and indexes the list (Dispatch). HostReads      *)
+(*   "snapshot" is the code (one read, check and indexing on the same      *)
+(*   list); "twice" indexes the list published NOW: a withdrawal between   *)
+(*   the two reads (ConcurrentWithdrawals) indexes out of range (crash).   *)
+(* - Reannounce: service discovery announces a host that is stored already *)
+(*   (OnSvcHostAdd of an existing address). The set of hosts is the same   *)
+(*   before and after. ReannounceRule "atomic" is the code (one            *)
+(*   publication of the same list); "remove-then-add" publishes a list     *)
+(*   without that host first (hidden) and the full list afterwards.        *)
 (***************************************************************************)
 EXTENDS Integers, Sequences, FiniteSets, TLC, TLCExt, Json
 
@@ -37,7 +47,11 @@ CONSTANTS MinNodes,         \* number of nodes MinNodes..MaxNodes (0 = no health
           IdxSpace,         \* stands for 2^16
           PastEndRule,      \* "ge" (code) | "gt-last" (wraps for zero hosts)
           CompletionOrder,  \* "rewrite-publish" (code) | "publish-rewrite"
-          Withdrawals       \* TRUE: hosts may be withdrawn once while the client holds a cursor
+          Withdrawals,      \* TRUE: hosts may be withdrawn once while the client holds a cursor
+          ConcurrentWithdrawals, \* TRUE: ... also between ReadHosts and Dispatch of a call
+          HostReads,        \* "snapshot" (code) | "twice"
+          Reannouncements,  \* TRUE: stored hosts may be announced again at any time
+          ReannounceRule    \* "atomic" (code) | "remove-then-add"
 
 CursorVals == {1, 2, (Base \div 2) - 1, Base \div 2, Base - 1}
 
@@ -60,17 +74,19 @@ PastEnd(idx, n) ==
   IF PastEndRule = "ge" THEN idx >= n
   ELSE idx > ((n + IdxSpace - 1) % IdxSpace)
 
-\* one SCAN call through the proxy with client cursor c over nodes hs (sequence of chains):
+\* one SCAN call through the proxy with client cursor c; chk is the host list the bound check looks at, use the
+\* list that is indexed (sequences of chains):
 \* node asked (0 = answered by the proxy), cursor sent to it, the node's own next cursor (raw), the cursor the
 \* client must be given (next), crash = the host list is indexed out of range
-Call(hs, c) ==
+CallOn(chk, use, c) ==
   LET idx == ParseIdx(c)
       cur == ParseCur(c)
-  IN IF PastEnd(idx, Len(hs)) THEN [node |-> 0, sent |-> 0, raw |-> 0, next |-> 0, crash |-> FALSE]
-     ELSE IF idx >= Len(hs) THEN [node |-> idx + 1, sent |-> cur, raw |-> 0, next |-> 0, crash |-> TRUE]
-     ELSE LET nx == NextOf(hs[idx + 1], cur)
+  IN IF PastEnd(idx, Len(chk)) THEN [node |-> 0, sent |-> 0, raw |-> 0, next |-> 0, crash |-> FALSE]
+     ELSE IF idx >= Len(use) THEN [node |-> idx + 1, sent |-> cur, raw |-> 0, next |-> 0, crash |-> TRUE]
+     ELSE LET nx == NextOf(use[idx + 1], cur)
           IN [node |-> idx + 1, sent |-> cur, raw |-> nx,
               next |-> IF nx = 0 THEN Compose(idx + 1, 0) ELSE Compose(idx, nx), crash |-> FALSE]
+Call(hs, c) == CallOn(hs, hs, c)
 
 VARIABLES ns,        \* the healthy hosts: sequence of chains
           cursor,    \* cursor the client holds
@@ -78,42 +94,64 @@ VARIABLES ns,        \* the healthy hosts: sequence of chains
           done,
           fly,       \* <<>> or <<the forwarded call being completed>>
           epoch,     \* 0 before, 1 after the withdrawal
-          probe      \* <<>> or <<what the saved cursor met after the withdrawal>>
+          probe,     \* <<>> or <<what the saved cursor met after the withdrawal>>
+          snap,      \* <<>> or <<the host list handleScan has read>>
+          hidden     \* 0 or the index of the host the published list transiently lacks
 
-vars == <<ns, cursor, calls, done, fly, epoch, probe>>
+vars == <<ns, cursor, calls, done, fly, epoch, probe, snap, hidden>>
 
 Init ==
   /\ ns \in UNION {[1..n -> Chains] : n \in MinNodes..MaxNodes}
   /\ cursor = 0 /\ calls = <<>> /\ done = FALSE /\ fly = <<>> /\ epoch = 0 /\ probe = <<>>
+  /\ snap = <<>> /\ hidden = 0
+
+SubSeqBy(s, S) == LET F[i \in 0..Len(s)] == IF i = 0 THEN <<>> ELSE IF i \in S THEN Append(F[i - 1], s[i]) ELSE F[i - 1] IN F[Len(s)]
+IdxSeq(n, S) == SubSeqBy([i \in 1..n |-> i], S)
+
+\* the healthy list as published (lock-free read by handleScan)
+Published == IF hidden = 0 THEN ns ELSE SubSeqBy(ns, (1..Len(ns)) \ {hidden})
 
 Finished(r, got) == [node |-> r.node, sent |-> r.sent, raw |-> r.raw, next |-> r.next, crash |-> r.crash, got |-> got]
 
-\* the session reader parses the request; terminal replies are set by itself before the request is queued for the writer
-Send ==
-  /\ ~done /\ fly = <<>>
-  /\ LET r == Call(ns, cursor) IN
-       IF r.node = 0 \/ r.crash
-       THEN /\ calls' = Append(calls, Finished(r, r.next))
-            /\ cursor' = r.next
-            /\ done' = TRUE
-            /\ fly' = fly
-       ELSE /\ fly' = <<[call |-> r, text |-> r.raw, rew |-> FALSE, pub |-> FALSE]>>
-            /\ UNCHANGED <<calls, cursor, done>>
-  /\ UNCHANGED <<ns, epoch, probe>>
+\* the session reader parses the request and reads the published host list
+ReadHosts ==
+  /\ ~done /\ fly = <<>> /\ snap = <<>>
+  /\ snap' = <<Published>>
+  /\ UNCHANGED <<ns, cursor, calls, done, fly, epoch, probe, hidden>>
+
+\* ... checks the node index and indexes the list; terminal replies are set by itself before the request is queued
+\* for the writer. A call that was overtaken by a withdrawal is the probe of that withdrawal: only its not crashing
+\* is judged, a fresh iteration starts after it.
+Dispatch ==
+  /\ snap # <<>>
+  /\ LET r == CallOn(snap[1], IF HostReads = "snapshot" THEN snap[1] ELSE Published, cursor) IN
+       IF probe # <<>> /\ probe[1].pending
+       THEN /\ probe' = <<[probe[1] EXCEPT !.pending = FALSE, !.crash = r.crash]>>
+            /\ cursor' = 0 /\ calls' = <<>> /\ done' = FALSE /\ fly' = <<>>
+       ELSE /\ probe' = probe
+            /\ IF r.node = 0 \/ r.crash
+               THEN /\ calls' = Append(calls, Finished(r, r.next))
+                    /\ cursor' = r.next
+                    /\ done' = TRUE
+                    /\ fly' = fly
+               ELSE /\ fly' = <<[call |-> r, text |-> r.raw, rew |-> FALSE, pub |-> FALSE]>>
+                    /\ UNCHANGED <<calls, cursor, done>>
+  /\ snap' = <<>>
+  /\ UNCHANGED <<ns, epoch, hidden>>
 
 \* backend reader goroutine: the node cursor inside the response becomes the composite cursor
 Rewrite ==
   /\ fly # <<>> /\ ~fly[1].rew
   /\ CompletionOrder = "rewrite-publish" \/ fly[1].pub
   /\ fly' = <<[fly[1] EXCEPT !.text = fly[1].call.next, !.rew = TRUE]>>
-  /\ UNCHANGED <<ns, cursor, calls, done, epoch, probe>>
+  /\ UNCHANGED <<ns, cursor, calls, done, epoch, probe, snap, hidden>>
 
 \* backend reader goroutine: raw.SetResponse closes the done latch, the session writer may look
 Publish ==
   /\ fly # <<>> /\ ~fly[1].pub
   /\ CompletionOrder = "publish-rewrite" \/ fly[1].rew
   /\ fly' = <<[fly[1] EXCEPT !.pub = TRUE]>>
-  /\ UNCHANGED <<ns, cursor, calls, done, epoch, probe>>
+  /\ UNCHANGED <<ns, cursor, calls, done, epoch, probe, snap, hidden>>
 
 \* session writer goroutine: encodes the response object as it is now; the client feeds that cursor back
 Encode ==
@@ -122,26 +160,37 @@ Encode ==
   /\ cursor' = fly[1].text
   /\ done' = (fly[1].text = 0)
   /\ fly' = <<>>
-  /\ UNCHANGED <<ns, epoch, probe>>
+  /\ UNCHANGED <<ns, epoch, probe, snap, hidden>>
 
-Step == Send \/ Rewrite \/ Publish \/ Encode
+Step == ReadHosts \/ Dispatch \/ Rewrite \/ Publish \/ Encode
 
-SubSeqBy(s, S) == LET F[i \in 0..Len(s)] == IF i = 0 THEN <<>> ELSE IF i \in S THEN Append(F[i - 1], s[i]) ELSE F[i - 1] IN F[Len(s)]
-IdxSeq(n, S) == SubSeqBy([i \in 1..n |-> i], S)
-
-\* service discovery withdraws hosts (any proper subset stays); the client comes back with the cursor it holds
+\* service discovery withdraws hosts (any proper subset stays). Between two calls: the client comes back with the
+\* cursor it holds. During a call (after ReadHosts): that call is the probe, it is judged when it is dispatched.
 Withdraw ==
-  /\ Withdrawals /\ epoch = 0 /\ fly = <<>> /\ Len(ns) > 0
+  /\ Withdrawals /\ epoch = 0 /\ fly = <<>> /\ Len(ns) > 0 /\ hidden = 0
+  /\ snap = <<>> \/ ConcurrentWithdrawals
   /\ \E S \in (SUBSET (1..Len(ns))) \ {1..Len(ns)} :
        LET keep == SubSeqBy(ns, S)
            idx == ParseIdx(cursor)
+           during == snap # <<>>
        IN /\ ns' = keep
           /\ probe' = <<[before |-> ns, k |-> Len(calls), keep |-> IdxSeq(Len(ns), S), cursor |-> cursor,
-                         terminal |-> PastEnd(idx, Len(keep)),
-                         crash |-> ~PastEnd(idx, Len(keep)) /\ idx >= Len(keep)]>>
-  /\ epoch' = 1 /\ cursor' = 0 /\ calls' = <<>> /\ done' = FALSE /\ fly' = fly
+                         during |-> during, pending |-> during,
+                         terminal |-> ~during /\ PastEnd(idx, Len(keep)),
+                         crash |-> ~during /\ ~PastEnd(idx, Len(keep)) /\ idx >= Len(keep)]>>
+          /\ cursor' = IF during THEN cursor ELSE 0
+  /\ epoch' = 1 /\ calls' = <<>> /\ done' = FALSE /\ fly' = fly /\ snap' = snap /\ hidden' = hidden
 
-Next == Step \/ Withdraw
+\* service discovery announces a stored host again: the same hosts before and after
+Reannounce ==
+  /\ Reannouncements /\ hidden = 0 /\ Len(ns) > 0
+  /\ \E i \in 1..Len(ns) : hidden' = IF ReannounceRule = "atomic" THEN 0 ELSE i
+  /\ UNCHANGED <<ns, cursor, calls, done, fly, epoch, probe, snap>>
+ReannounceDone ==
+  /\ hidden # 0 /\ hidden' = 0
+  /\ UNCHANGED <<ns, cursor, calls, done, fly, epoch, probe, snap>>
+
+Next == Step \/ Withdraw \/ Reannounce \/ ReannounceDone
 Spec == Init /\ [][Next]_vars /\ WF_vars(Step)
 
 TotalSteps == LET F[i \in 0..Len(ns)] == IF i = 0 THEN 0 ELSE F[i - 1] + Len(ns[i]) + 1 IN F[Len(ns)]
@@ -170,13 +219,15 @@ DeliveredComposite == \A i \in 1..Len(calls) : calls[i].got = calls[i].next
 \* a cursor saved before hosts were withdrawn: never a crash; past the (new) last node: the terminal reply
 ResumeSafe ==
   probe # <<>> => /\ ~probe[1].crash
-                  /\ (ParseIdx(probe[1].cursor) >= Len(ns)) => probe[1].terminal
+                  /\ (~probe[1].during /\ ParseIdx(probe[1].cursor) >= Len(ns)) => probe[1].terminal
 
 \* windows that must be reachable (checked as invariants that must be violated)
 W_NoHosts == Len(ns) = 0 /\ Len(calls) > 0
 W_AllWithdrawnMidIteration == probe # <<>> /\ Len(ns) = 0 /\ probe[1].cursor # 0
 W_WriterMayEncodeWhilePublisherRuns == fly # <<>> /\ fly[1].pub
+W_WithdrawnBetweenReadAndDispatch == probe # <<>> /\ probe[1].pending /\ ParseIdx(cursor) >= Len(ns) /\ ParseIdx(cursor) < Len(snap[1])
 NotW_NoHosts == ~W_NoHosts
 NotW_AllWithdrawnMidIteration == ~W_AllWithdrawnMidIteration
 NotW_WriterMayEncodeWhilePublisherRuns == ~W_WriterMayEncodeWhilePublisherRuns
+NotW_WithdrawnBetweenReadAndDispatch == ~W_WithdrawnBetweenReadAndDispatch
 =============================================================================
